@@ -151,8 +151,25 @@ def o_parse(raw):
 
 
 def o_target(bits):
+    """arith_uint256::SetCompact: the magnitude"""
     size, word = bits >> 24, bits & 0x007fffff
     return word >> (8 * (3 - size)) if size <= 3 else word << (8 * (size - 3))
+
+
+def o_target_signed(bits):
+    """the number the compact form encodes: SetCompact's magnitude, negative when the sign bit 0x00800000 is set on a
+    non-zero mantissa (pfNegative); Bitcoin Core refuses such a header, a positive number is never its target"""
+    neg = (bits & 0x007fffff) != 0 and (bits & 0x00800000) != 0
+    return -o_target(bits) if neg else o_target(bits)
+
+
+def lib_target_documented(bits, as_block=False):
+    """what the recorded finding target_outside_domain says the library answers outside the domain: the 24 bits after
+    the exponent taken as a non-negative coefficient; coefficient * 256 ** (exponent - 3) is a float for exponent < 3"""
+    e, m = bits >> 24, bits & 0x00ffffff
+    if e < 3:
+        return 'FLOAT' if as_block else 'FLOAT:' + float(m * 256 ** (e - 3)).hex()
+    return str(m * 256 ** (e - 3))
 
 
 def o_parse_block(raw):
@@ -305,6 +322,10 @@ def tx_classes(t):
             items += pushes(i[2])
         if any(sigkey_shaped(d) for d in items):
             c.add('script_layer_rebuild')
+    if undecodable_sig_items(t):
+        c.add('strict_refuses_signature_shaped')
+    if any(multisig_mismatch(sc) for _, sc in outs):
+        c.add('multisig_count_mismatch')
     return c
 
 
@@ -321,7 +342,9 @@ def block_classes(f):
     return c
 
 
-MODEL_BLIND = {'scriptsig_and_witness', 'script_layer_rebuild', 'malformed_scriptsig'}   # the byte-level model does not predict these
+# the byte-level model does not predict these (the script layer's refusals are predicted by Model/TxStrict.v on the
+# shaped-data stream only)
+MODEL_BLIND = {'scriptsig_and_witness', 'script_layer_rebuild', 'malformed_scriptsig', 'multisig_count_mismatch'}
 
 
 # ---------------------------------------------------------------- generators
@@ -487,18 +510,45 @@ def simple(ins=None, outs=None, v=1, lt=0):
     return (v, ins, outs, lt, any(i[4] for i in ins))
 
 
+def target_cases(cs_):
+    # ---- target: every exponent x boundary mantissas (sign bit 0x00800000 clear and set)
+    for e in range(0, 36):
+        for m in [0, 1, 0xff, 0x100, 0xffff, 0x10000, 0x123456, 0x7fffff, 0x800000, 0x800001, 0x80ffff, 0xffffff]:
+            cs_.append(Case('target', 'target %d' % ((e << 24) | m)))
+    for bits in (0x1d00ffff, 0x1b0404cb, 0x170b8c8b, 0x207fffff, 0xffffffff, 0x1c80ffff, 0x1dffffff, 0x03800000, 0x04923456):
+        cs_.append(Case('target', 'target %d' % bits))
+
+
+RUN_TIER = [None]          # the tier of the run (set by main); gen_cases(.., 'thorough') inside a quick run is the widening
+ESCALATE_CAP = 1500        # cases added from the thorough streams when a proof / tie obligation broke (core.standard_check)
+
+
+def main(tier, seed, replay):
+    import sys
+    import core
+    RUN_TIER[0] = tier
+    return core.standard_check(sys.modules[__name__], tier, seed, replay)
+
+
 def gen_cases(rng, tier):
     big = tier == 'thorough'
+    # widening of a quick run after a broken obligation: the thorough streams without their giant members (counts of
+    # 65535 / 65536 entries, 60000+ byte scripts: the quick stream, which is always run, holds the 65534..65536-byte
+    # scripts already), cheapest boundary streams first so that they fall in the densely kept head of the sample
+    widen = big and RUN_TIER[0] == 'quick'
     cs_ = []
     P = bytes(range(1, 33))
+    if widen:
+        target_cases(cs_)
     # ---- boundary stream: counts
-    for n in [1, 2, 3, 252, 253, 254] + ([65535, 65536] if big else []):
+    for n in [1, 2, 3, 252, 253, 254] + ([65535, 65536] if big and not widen else []):
         tx_case('tx_count_in', 'plain', simple(ins=[(P, k & 0xffffffff, b'', 0xffffffff, []) for k in range(n)]), cs_)
         tx_case('tx_count_out', 'plain', simple(outs=[(k, b'\x51') for k in range(n)]), cs_)
         tx_case('tx_count_wit', 'plain', simple(ins=[(P, 0, b'', 0xffffffff, [b'\x51'] * n)]), cs_)
         tx_case('tx_count_wit', 'plain', simple(ins=[(P, 0, b'', 0xffffffff, [b''] * n)]), cs_)
     # ---- boundary stream: lengths
-    for n in [0, 1, 2, 22, 25, 75, 76, 252, 253, 254, 255, 256, 520, 10000, 65534, 65535, 65536] + ([70000] if big else []):
+    for n in [0, 1, 2, 22, 25, 75, 76, 252, 253, 254, 255, 256, 520, 10000] + ([] if widen else [65534, 65535, 65536]) + \
+            ([70000] if big and not widen else []):
         for fill in ((plain_script(rng, n), rnd(rng, n)) if (big or n < 60000) else (plain_script(rng, n),)):
             tag = 'plain' if fill == b'' or fill[0] in (0x51, 0x52, 0x60, 0x75, 0x76, 0x87, 0x93, 0xac, 0xb1, 0xff, 0) and \
                 all(x >= 0x4f or x == 0 for x in fill) else 'non'
@@ -566,18 +616,18 @@ def gen_cases(rng, tier):
     cs_.append(Case('api', 'api ' + tok_tx(simple(outs=[(1, b'\x00')]))))
     cs_.append(Case('api', 'api ' + tok_tx(simple(outs=[(1 << 64, b'\x51')]))))
     cs_.append(Case('api', 'api ' + tok_tx(simple(outs=[(1, b'ab')]))))
-    # ---- target: every exponent x boundary mantissas
-    for e in range(0, 36):
-        for m in [0, 1, 0xff, 0x100, 0xffff, 0x10000, 0x123456, 0x7fffff, 0x800000, 0xffffff]:
-            cs_.append(Case('target', 'target %d' % ((e << 24) | m)))
-    for bits in (0x1d00ffff, 0x1b0404cb, 0x170b8c8b, 0x207fffff, 0xffffffff):
-        cs_.append(Case('target', 'target %d' % bits))
+    if not widen:
+        target_cases(cs_)
+    # ---- pushed data imitating keys / signatures, in every position of the standard forms
+    gen_shaped(rng, big, cs_)
     # ---- blocks
+    shp_pool = [t for _, t in shaped_txs(rng, [], bad_keys(rng), True)]
+
     def block(nt, hdr=None, kinds=('std', 'plain')):
         txs = [coinbase_tx(rng, rng.random() < 0.5)]
         for _ in range(nt - 1):
             kd = rng.choice(kinds)
-            txs.append(rnd_tx(rng, kd))
+            txs.append(rng.choice(shp_pool) if kd == 'shp' else rnd_tx(rng, kd))
         v, bits, nonce = hdr or (rng.choice([1, 2, 0x20000000, 0x3fffe000]), rng.choice([0x1d00ffff, 0x1b0404cb, 0x170b8c8b]),
                                  rng.getrandbits(32))
         raw = v.to_bytes(4, 'little') + rnd(rng, 32) + rnd(rng, 32) + rng.getrandbits(32).to_bytes(4, 'little') + \
@@ -585,16 +635,443 @@ def gen_cases(rng, tier):
         return Case('block', 'block ' + raw.hex())
     # half of the blocks hold only transactions outside the script-layer classes, so that nothing about them
     # is excused by a recorded class
-    for k, nt in enumerate([1, 2, 3, 5, 10, 25, 50] + ([252, 253] if big else [])):
+    for k, nt in enumerate([1, 2, 3, 5, 10, 25] + ([] if widen else [50]) + ([252, 253] if big and not widen else [])):
         cs_.append(block(nt, kinds=('plain',) if k % 2 == 0 else ('std', 'plain')))
     for k in range(200 if big else 25):
-        cs_.append(block(rng.randrange(1, 51 if big else 12), kinds=('plain',) if k % 2 == 0 else ('std', 'plain')))
+        cs_.append(block(rng.randrange(1, 51 if big and not widen else 12), kinds=('plain',) if k % 2 == 0 else ('std', 'plain')))
     cs_.append(block(2, hdr=(0x30303030, 0x1d00ffff, 7)))       # version bytes read as text
     cs_.append(block(2, hdr=(2, 0x1d00ffff, 0x20202020)))       # nonce bytes read as text
     cs_.append(block(2, hdr=(2, 0x02008000, 1)))                # exponent below 3
     cs_.append(block(2, hdr=(0, 0, 0)))
     cs_.append(block(2, hdr=(0xffffffff, 0x1d00ffff, 0xffffffff)))
+    cs_.append(block(2, hdr=(2, 0x1c80ffff, 1), kinds=('plain',)))     # sign bit of the compact target set
+    cs_.append(block(3, hdr=(1, 0x1dffffff, 2), kinds=('plain',)))
+    for k in range(20 if big else 3):
+        cs_.append(block(rng.randrange(2, 9), kinds=('shp', 'plain')))   # key-shaped data that is no curve point
+    # ---- sequences of reader calls on one Block object
+    gen_sessions(rng, big, cs_)
     return cs_
+
+
+# ---------------------------------------------------------------- pushed data that IMITATES what the library interprets
+# Consensus serialization does not look inside scripts: a 33/65-byte push that is not a curve point, a 0x30.. push
+# that is not a DER signature, are just bytes.  The stream below puts such data in every position the script layer
+# of the library looks at.  The classes in which the UNCHANGED library fails are decided here from the case alone.
+SECP_P = 2 ** 256 - 2 ** 32 - 977
+SECP_N = 0xFFFFFFFFFFFFFFFFFFFFFFFFFFFFFFFEBAAEDCE6AF48A03BBFD25E8CD0364141
+
+
+def on_curve_x(x):
+    """is x the abscissa of a point of y^2 = x^3 + 7 over F_p"""
+    if x >= SECP_P:
+        return False
+    y2 = (pow(x, 3, SECP_P) + 7) % SECP_P
+    return y2 == 0 or pow(y2, (SECP_P - 1) // 2, SECP_P) == 1
+
+
+def is_point(k):
+    if len(k) == 33 and k[0] in (2, 3):
+        return on_curve_x(int.from_bytes(k[1:], 'big'))
+    if len(k) == 65 and k[0] == 4:
+        x, y = int.from_bytes(k[1:33], 'big'), int.from_bytes(k[33:], 'big')
+        return x < SECP_P and y < SECP_P and (y * y - x * x * x - 7) % SECP_P == 0
+    return False
+
+
+def bad_keys(rng):
+    """key-shaped pushes (02/03 + 32 bytes, 04 + 64 bytes) that are NOT points of secp256k1"""
+    out = []
+    x = 5
+    while on_curve_x(x):
+        x += 1
+    out.append(b'\x02' + x.to_bytes(32, 'big'))                       # x without a point
+    x = rng.getrandbits(256) % SECP_P
+    while on_curve_x(x):
+        x = (x + 1) % SECP_P
+    out.append(bytes([rng.choice([2, 3])]) + x.to_bytes(32, 'big'))
+    out.append(b'\x03' + SECP_P.to_bytes(32, 'big'))                  # x = p
+    out.append(b'\x02' + (SECP_P + 1 + rng.randrange(900)).to_bytes(32, 'big'))   # x > p
+    out.append(b'\x03' + b'\xff' * 32)
+    out.append(b'\x02' + b'\x00' * 32)                                # x = 0
+    txt = b'Counterparty style embedded data'
+    d = b'\x03' + txt[:31] + b'\x00'
+    while on_curve_x(int.from_bytes(d[1:], 'big')):
+        d = d[:-1] + bytes([d[-1] + 1])
+    out.append(d)                                                     # data carried in a "key"
+    out.append(GU[:-1] + bytes([GU[-1] ^ 1]))                         # uncompressed, y wrong
+    out.append(b'\x04' + GU[1:33] + SECP_P.to_bytes(32, 'big'))       # uncompressed, y = p
+    out.append(b'\x04' + (SECP_P + 7).to_bytes(32, 'big') + GU[33:])  # uncompressed, x > p
+    out.append(b'\x04' + rnd(rng, 64))
+    out.append(b'\x04' + b'\x00' * 64)
+    return [k for k in out if not is_point(k)]
+
+
+def der_enc(r, s, ht=1):
+    def enc(x):
+        b = x.to_bytes(max(1, (x.bit_length() + 7) // 8), 'big')
+        if b[0] & 0x80:
+            b = b'\x00' + b
+        return b'\x02' + bytes([len(b)]) + b
+    body = enc(r) + enc(s)
+    return b'\x30' + bytes([len(body)]) + body + bytes([ht])
+
+
+def bip66_ok(sig):
+    """Bitcoin Core IsValidSignatureEncoding on sig (with its hash-type byte), plus r, s in [1, n)"""
+    n = len(sig)
+    if n < 9 or n > 73 or sig[0] != 0x30 or sig[1] != n - 3:
+        return False
+    lr = sig[3]
+    if 5 + lr >= n:
+        return False
+    ls = sig[5 + lr]
+    if lr + ls + 7 != n or sig[2] != 2 or lr == 0 or sig[4] & 0x80:
+        return False
+    if lr > 1 and sig[4] == 0 and not sig[5] & 0x80:
+        return False
+    if sig[lr + 4] != 2 or ls == 0 or sig[lr + 6] & 0x80:
+        return False
+    if ls > 1 and sig[lr + 6] == 0 and not sig[lr + 7] & 0x80:
+        return False
+    r = int.from_bytes(sig[4:4 + lr], 'big')
+    s_ = int.from_bytes(sig[6 + lr:6 + lr + ls], 'big')
+    return 1 <= r < SECP_N and 1 <= s_ < SECP_N
+
+
+def bad_sigs(rng):
+    """signature-shaped pushes (0x30, 69..74 bytes) that are not valid DER signatures with r, s in [1, n)"""
+    r, s_ = rng.randrange(1 << 255, SECP_N), rng.randrange(1 << 254, 1 << 255)
+    good = der_enc(r, s_)
+    out = [b'\x30' + rnd(rng, rng.randrange(68, 74)),                # junk behind the SEQUENCE tag
+           good[:1] + bytes([good[1] + 1]) + good[2:],                # SEQUENCE length one too long
+           der_enc(SECP_N, s_), der_enc((1 << 256) - 1, s_),          # r >= n
+           der_enc(r, SECP_N + rng.randrange(100)),                   # s >= n
+           good[:4] + bytes([good[4] | 0x80]) + good[5:] if not good[4] else good[:5] + bytes([good[5] & 0x7f]) + good[6:],
+           good[:-1],                                                 # hash type byte missing
+           b'\x30\x44\x02\x20' + b'\x80' + rnd(rng, 31) + b'\x02\x20' + b'\x11' * 32 + b'\x01',   # negative r
+           b'\x30\x45\x02\x21\x00\x00' + b'\x7f' * 31 + b'\x02\x20' + b'\x11' * 32 + b'\x01',     # padded r
+           b'\x30\x44\x03\x20' + b'\x11' * 32 + b'\x02\x20' + b'\x11' * 32 + b'\x01']             # wrong tag
+    return [x for x in out if sigkey_shaped(x) and x[:1] == b'\x30' and not bip66_ok(x)]
+
+
+def level0(s):
+    """data items the script layer meets at the top level of a script (whole-script rule, then pushes); None when a
+    push runs past the end"""
+    n = len(s)
+    if n and ((s[0] == 0x30 and 69 <= n <= 74) or (s[0] in (2, 3) and n == 33) or (s[0] == 4 and n == 65) or n == 64):
+        return [s]
+    out, i = [], 0
+    while i < n:
+        op = s[i]
+        i += 1
+        if 1 <= op <= 75:
+            k = op
+        elif op == 76:
+            k = int.from_bytes(s[i:i + 1], 'little')
+            i += 1
+        elif op == 77:
+            k = int.from_bytes(s[i:i + 2], 'little')
+            i += 2
+        else:
+            continue
+        if k == 0:
+            continue
+        if i + k > n:
+            return None
+        out.append(s[i:i + k])
+        i += k
+    return out
+
+
+def undecodable_sig_items(t):
+    """signature-shaped top-level items that are not BIP66 signatures with r, s in range, anywhere the strict script
+    layer looks: scriptSig of non-coinbase inputs, output scripts, witness items"""
+    scripts = [i[2] for i in t[1] if i[0] != b'\x00' * 32] + [sc for _, sc in t[2]] + [w for i in t[1] for w in i[4]]
+    bad = []
+    for sc in scripts:
+        for d in (level0(sc) or []):
+            if d[:1] == b'\x30' and 69 <= len(d) <= 74 and not bip66_ok(d):
+                bad.append(d)
+    return bad
+
+
+def multisig_mismatch(sc):
+    """OP_m <key>.. OP_n OP_CHECKMULTISIG with m > #keys or #keys != n"""
+    if len(sc) < 4 or not (0x51 <= sc[0] <= 0x60) or sc[-1] != 0xae or not (0x51 <= sc[-2] <= 0x60):
+        return False
+    body, i, k = sc[1:-2], 0, 0
+    while i < len(body):
+        if body[i] == 33 and body[i + 1:i + 2] in (b'\x02', b'\x03') and i + 34 <= len(body):
+            i += 34
+        elif body[i] == 65 and body[i + 1:i + 2] == b'\x04' and i + 66 <= len(body):
+            i += 66
+        else:
+            return False
+        k += 1
+    return k >= 1 and (sc[0] - 80 > k or k != sc[-2] - 80)
+
+
+def known_status(cid):
+    from core import load_known
+    for e in load_known(PROP):
+        if e.get('id') == cid or e.get('class') == cid:
+            return e.get('status')
+    return None
+
+
+def multisig_script(m, keys, n=None):
+    return bytes([80 + m]) + b''.join(push(k) for k in keys) + bytes([80 + (len(keys) if n is None else n)]) + b'\xae'
+
+
+def shaped_txs(rng, sigs, keys, full):
+    """one transaction per (template, datum): the datum replaces the signature / key of a standard form"""
+    P = bytes(range(1, 33))
+    good_sig, good_sig2 = der_sig(rng), der_sig(rng)
+    out = []
+    for k in keys:
+        ms = multisig_script(1, [G1, k])
+        ms3 = multisig_script(2, [k, G2, k])
+        forms = [
+            ('p2pkh_in', simple(ins=[(P, 0, push(good_sig) + push(k), 0xffffffff, [])])),
+            ('p2wpkh', simple(ins=[(P, 0, b'', 0xfffffffd, [good_sig, k])])),
+            ('p2sh_p2wpkh', simple(ins=[(P, 1, push(b'\x00\x14' + h160(k)), 0xffffffff, [good_sig, k])])),
+            ('p2pk_out', simple(outs=[(7, push(k) + b'\xac'), (1, b'\x51')])),
+            ('ms_out', simple(outs=[(7800, ms), (2000, b'\x76\xa9\x14' + b'\x22' * 20 + b'\x88\xac')])),
+            ('ms_out3', simple(outs=[(1, ms3)])),
+            ('p2sh_ms_in', simple(ins=[(P, 0, b'\x00' + push(good_sig) + push(ms), 0xffffffff, [])])),
+            ('p2wsh_ms', simple(ins=[(P, 0, b'', 0xffffffff, [b'', good_sig, ms])])),
+            ('p2sh_p2wsh_ms', simple(ins=[(P, 0, push(b'\x00\x20' + hashlib.sha256(ms3).digest()), 0xffffffff,
+                                           [b'', good_sig, good_sig2, ms3])])),
+            ('opret', simple(outs=[(0, b'\x6a' + push(k))])),
+            ('mixed', (2, [(P, 0, push(good_sig) + push(k), 1, []), (rnd_prev(rng), 3, b'', 0xfffffffe, [good_sig2, k])],
+                       [(5, push(k) + b'\xac'), (6, ms)], 99, True)),
+        ]
+        out += forms if full else [forms[j] for j in sorted(rng.sample(range(len(forms)), 4))]
+    for sg in sigs:
+        ms = multisig_script(1, [G1, G2])
+        forms = [
+            ('p2pkh_in', simple(ins=[(P, 0, push(sg) + push(G1), 0xffffffff, [])])),
+            ('p2pk_in', simple(ins=[(P, 0, push(sg), 0xffffffff, [])])),
+            ('p2wpkh', simple(ins=[(P, 0, b'', 0xfffffffd, [sg, G2])])),
+            ('p2sh_ms_in', simple(ins=[(P, 0, b'\x00' + push(sg) + push(ms), 0xffffffff, [])])),
+            ('p2wsh_ms', simple(ins=[(P, 0, b'', 0xffffffff, [b'', sg, ms])])),
+            ('opret', simple(outs=[(0, b'\x6a' + push(sg))])),
+            ('in_redeem', simple(ins=[(P, 0, b'\x00' + push(good_sig) + push(b'\x51' + push(G1) + push(sg) + b'\x52\xae'),
+                                       0xffffffff, [])])),
+        ]
+        out += forms if full else [forms[j] for j in sorted(rng.sample(range(len(forms)), 3))]
+    return out
+
+
+def gen_shaped(rng, big, cs_):
+    keys = bad_keys(rng)
+    for name, t in shaped_txs(rng, [], keys, True):
+        cs_.append(Case('tx_shp_key', 'tx shp ' + o_ser(t).hex()))
+    for _ in range(20 if big else 2):
+        for name, t in shaped_txs(rng, [], bad_keys(rng), big):
+            cs_.append(Case('tx_shp_key', 'tx shp ' + o_ser(t).hex()))
+    # valid data in the same templates (controls)
+    for name, t in shaped_txs(rng, [der_sig(rng)], [G1, G3, GU], True):
+        cs_.append(Case('tx_shp_ok', 'tx shp ' + o_ser(t).hex()))
+    # the classes in which the unchanged library fails are exercised once they are recorded
+    if known_status('strict_refuses_signature_shaped') == 'known':
+        for _ in range(10 if big else 1):
+            for name, t in shaped_txs(rng, bad_sigs(rng), [], True):
+                cs_.append(Case('tx_shp_sig', 'tx shp ' + o_ser(t).hex()))
+    if known_status('multisig_count_mismatch') == 'known':
+        for (m, ks, n) in [(1, [G1], 2), (3, [G1, G2], 2), (1, [G1, G2], 3), (1, [G1, keys[0]], 3), (2, [G1], 1),
+                           (1, [G1, G2, G3], 16)]:
+            cs_.append(Case('tx_shp_ms', 'tx shp ' + o_ser(simple(outs=[(1, multisig_script(m, ks, n))])).hex()))
+            cs_.append(Case('tx_shp_ms', 'tx shp ' + o_ser(simple(ins=[(bytes(range(1, 33)), 0, b'', 0xffffffff,
+                                                                          [b'', der_sig(rng), multisig_script(m, ks, n)])])).hex()))
+
+
+# ---------------------------------------------------------------- sessions: reader calls on ONE Block object
+# request: bsess <raw> <entry>:<P>:<k> <op> ...      (ops: T<k> parse_transactions(k), t parse_transaction(),
+#          D parse_transactions_dict(), d parse_transaction_dict(), S serialize())
+# The oracle keeps its own cursor: the readers that consume (the opening call with parse_transactions, T, t, d) must
+# deliver the block's transactions each once and in order; D lists what is left without consuming; serialize() of a
+# block whose transactions were all delivered as objects gives back the input bytes.
+ENTRIES = ['pb', 'p', 'pio', 'pbio']
+
+
+def sess_walk(n, ptx, lim, ops):
+    """the oracle's cursor: yields (op, p, objs, eof) before each op; eof = the op would read past the last transaction"""
+    p, objs = 0, []
+    if ptx:
+        m = n if lim == 0 else min(lim, n)
+        p, objs = m, list(range(m))
+    out = []
+    for op in ops:
+        todo = n - len(objs)
+        eof = False
+        before = (p, list(objs))
+        if op[0] == 'T':
+            k = int(op[1:])
+            m = todo if k == 0 else min(k, todo)
+            if p + m > n:
+                eof = True
+            else:
+                objs += list(range(p, p + m))
+                p += m
+        elif op == 't':
+            if todo > 0:
+                if p >= n:
+                    eof = True
+                else:
+                    objs.append(p)
+                    p += 1
+        elif op == 'd':
+            if todo > 0 and p < n:
+                p += 1
+        out.append((op, before, (p, list(objs)), eof))
+        if eof:
+            break
+    return out
+
+
+def check_session(c, out):
+    tk = c.req.split(' ')
+    raw = unhx(tk[1])
+    f = o_parse_block(raw)
+    if f is None or f['count'] == 0:
+        return None
+    n = f['count']
+    ids = [o_txid(t) for t in f['txs']]
+    dt = [ids[i] + '/' + hx(f['spans'][i]) for i in range(n)]
+    ent, ptx, lim = tk[2].split(':')
+    ops = tk[3:]
+    if out.startswith('ERR'):
+        return 'opening call %s rejects a well-formed block (%s)' % (tk[2], out)
+    steps = out.split(' | ')
+    if len(steps) != len(ops) + 2:
+        return 'unexpected answer %r' % out[:80]
+    if steps[-1] != '#' + f['hash']:
+        return 'block hash not recovered'
+    walk = sess_walk(n, ptx == '1', int(lim), ops)
+    states = [('open', None, sess_open(n, ptx == '1', int(lim)), False)] + walk
+    for i, (op, before, after, eof) in enumerate(states):
+        if eof:
+            return None                 # a read past the last transaction: the statement is silent from here on
+        res, got, cnt = steps[i].rsplit(';', 2)
+        where = 'step %d (%s) of %s' % (i, op, ' '.join(tk[2:]))
+        if cnt != str(n):
+            return '%s: tx_count %s, the block has %d transactions' % (where, cnt, n)
+        p, objs = after
+        if got != (','.join(ids[j] for j in objs) or '-'):
+            return '%s: Block.transactions are not the transactions delivered so far (each once, in block order)' % where
+        if op == 'open':
+            want = 'ok'
+        else:
+            p0, objs0 = before
+            todo = n - len(objs0)
+            if op[0] == 'T':
+                want = 'ok'
+            elif op == 't':
+                want = ids[p0] if todo > 0 else 'F'
+            elif op == 'D':
+                want = (','.join(dt[p0:]) or '-') if todo > 0 else '-'
+            elif op == 'd':
+                want = dt[p0] if (todo > 0 and p0 < n) else 'F'
+            else:
+                if res == 'NOSER':
+                    if objs0 == list(range(n)):
+                        return '%s: serialize() refuses a completely parsed block' % where
+                    continue
+                want = hx(raw)
+        if res != want:
+            if op == 'S':
+                return '%s: serialize() differs from the parsed bytes' % where
+            return '%s: the call returns %s, expected %s' % (where, res[:70], want[:70])
+    return None
+
+
+def sess_open(n, ptx, lim):
+    if not ptx:
+        return (0, [])
+    m = n if lim == 0 else min(lim, n)
+    return (m, list(range(m)))
+
+
+def small_tx(rng):
+    """a short transaction (60..130 bytes) outside every recorded class"""
+    while True:
+        sw = rng.random() < 0.4
+        ins = []
+        for _ in range(rng.choice([1, 1, 2])):
+            if sw and rng.random() < 0.7:
+                s, w = b'', [plain_script(rng, rng.choice([1, 2, 3, 8])) for _ in range(rng.choice([1, 2]))]
+            else:
+                s, w = plain_script(rng, rng.choice([0, 1, 2, 5])), []
+            ins.append((rnd_prev(rng), rng.choice([0, 1, 0xffffffff]), s, e32(rng), w))
+        outs = [(rng.getrandbits(36), plain_script(rng, rng.choice([1, 2, 5, 23]))) for _ in range(rng.choice([1, 1, 2]))]
+        t = (rng.choice([1, 2]), ins, outs, rng.choice([0, 0, 500000, 0xffffffff]), any(i[4] for i in ins))
+        if not tx_classes(t):
+            return t
+
+
+def sess_block(rng, n):
+    while True:
+        txs = []
+        while not txs or tx_classes(txs[0]):
+            txs = [coinbase_tx(rng, rng.random() < 0.3)]
+        txs += [small_tx(rng) for _ in range(n - 1)]
+        raw = rng.choice([1, 2, 0x20000000]).to_bytes(4, 'little') + rnd(rng, 32) + rnd(rng, 32) + \
+            rng.getrandbits(32).to_bytes(4, 'little') + (0x1d00ffff).to_bytes(4, 'little') + \
+            rng.getrandbits(32).to_bytes(4, 'little') + cs(n) + b''.join(o_ser(t) for t in txs)
+        f = o_parse_block(raw)
+        if f is not None and not block_classes(f):
+            return raw
+
+
+SESSION_SCRIPTS = [
+    ['D', 'T0', 'S'], ['T1', 'D', 'T0', 'S'], ['D', 'D', 't', 'D', 'T0', 'S', 'D'], ['t', 't', 'D', 'T2', 'S', 'T0', 'S'],
+    ['S', 'T0', 'S', 'S', 't', 'D', 'd'], ['T1', 'T1', 'D', 'T1', 'D', 'T0', 'S'], ['D', 't', 'D', 't', 'D', 'T0', 'S'],
+    ['d', 'D', 't', 'S', 'D'], ['D', 'd', 'D', 'T1', 'S'], ['T0', 'T0', 'D', 'S', 'T3', 'S'], ['T2', 'D', 'T0', 'S', 'D', 't'],
+    ['D', 'T1', 'D', 'T9', 'S'],
+]
+
+
+def gen_sessions(rng, big, cs_):
+    def emit(raw, n, ent, ptx, lim, ops):
+        ops = list(ops)
+        w = sess_walk(n, ptx, lim, ops)
+        if w and w[-1][3]:
+            ops = ops[:len(w) - 1]      # never ask for a read past the last transaction
+        if ops:
+            cs_.append(Case('bsess', 'bsess %s %s:%d:%d %s' % (raw.hex(), ent, 1 if ptx else 0, lim, ' '.join(ops))))
+    k = 0
+    for n in ([1, 2, 3, 5] if not big else [1, 2, 3, 4, 5, 8, 13, 30]):
+        raw = sess_block(rng, n)
+        opens = []
+        for o in [(False, 0), (False, 3), (True, 0), (True, 1), (True, n - 1), (True, n), (True, n + 1), (True, n + 7)]:
+            if o not in opens:
+                opens.append(o)
+        for (ptx, lim) in opens:
+            for j in range(len(SESSION_SCRIPTS) if big else 3):
+                emit(raw, n, ENTRIES[k % 4], ptx, lim, SESSION_SCRIPTS[(k + j) % len(SESSION_SCRIPTS)])
+                k += 1
+    for _ in range(1200 if big else 70):
+        n = rng.randrange(2, 31 if big else 9)
+        raw = sess_block(rng, n)
+        ptx = rng.random() < 0.6
+        lim = rng.choice([0, 1, 2, n - 1, n, n + 1, rng.randrange(1, n + 3)]) if ptx else rng.choice([0, 0, 2])
+        ops = []
+        for _ in range(rng.randrange(3, 11)):
+            r = rng.random()
+            if r < 0.30:
+                ops.append('T%d' % rng.choice([0, 1, 1, 2, 3, n, n + 2]))
+            elif r < 0.45:
+                ops.append('t')
+            elif r < 0.70:
+                ops.append('D')
+            elif r < 0.78:
+                ops.append('d')
+            else:
+                ops.append('S')
+        if rng.random() < 0.7:
+            ops += ['T0', 'S']
+        emit(raw, n, rng.choice(ENTRIES), ptx, max(lim, 0), ops)
 
 
 # ---------------------------------------------------------------- verdicts
@@ -634,13 +1111,20 @@ def prop_check(c, out):
         s, l, entry = split_tx_out(out)
         if entry:
             return 'parse / parse_hex / parse_bytes / raw_hex disagree'
+        # strict=False first: a failure there is never excused by a class that is about strict mode
+        v = check_parsed(l, raw, t, 'Transaction.parse(raw, strict=False)')
+        if v:
+            return v
         if s.startswith('ERR'):
-            if tk[1] == 'std':
-                return 'Transaction.parse(strict=True) rejects a standard transaction (%s)' % s
-            v = None                          # documented refusal of what strict mode does not understand
-        else:
-            v = check_parsed(s, raw, t, 'Transaction.parse(raw)')
-        return v or check_parsed(l, raw, t, 'Transaction.parse(raw, strict=False)')
+            if tk[1] in ('std', 'shp'):
+                # standard forms, and standard forms whose pushed data merely imitates keys / signatures: the bytes
+                # are a well-formed transaction whatever the pushed data is
+                return 'Transaction.parse(raw) (strict=True, the default) rejects a well-formed transaction of a ' \
+                       'standard form (%s)' % s
+            return None                       # documented refusal of what strict mode does not understand
+        return check_parsed(s, raw, t, 'Transaction.parse(raw)')
+    if tk[0] == 'bsess':
+        return check_session(c, out)
     if tk[0] == 'api':
         if out.startswith('ERR'):
             return None                       # the API declined to build it: nothing was serialized
@@ -653,9 +1137,8 @@ def prop_check(c, out):
         return None
     if tk[0] == 'target':
         bits = int(tk[1])
-        if (bits >> 24) < 3 or bits & 0x00800000:
-            return None if out == str(o_target(bits)) else 'target of bits %#x is %s, SetCompact gives %d' % (bits, out[:40], o_target(bits))
-        return None if out == str(o_target(bits)) else 'target of bits %#x is %s, expected %d' % (bits, out[:40], o_target(bits))
+        want = o_target_signed(bits)
+        return None if out == str(want) else 'target of bits %#x is %s, SetCompact gives %d' % (bits, out[:70], want)
     if tk[0] == 'block':
         raw = unhx(tk[1])
         f = o_parse_block(raw)
@@ -670,8 +1153,8 @@ def prop_check(c, out):
         want = [f['hash'], str(f['version']), f['prev'], f['merkle'], str(f['time']), str(f['bits']), str(f['nonce'])]
         if p[1:8] != want:
             return 'block header fields / hash not recovered exactly'
-        if not (f['bits'] & 0x00800000) and p[8] != str(o_target(f['bits'])):
-            return 'block target %s, SetCompact gives %d' % (p[8][:40], o_target(f['bits']))
+        if p[8] != str(o_target_signed(f['bits'])):
+            return 'block target %s, SetCompact gives %d' % (p[8][:70], o_target_signed(f['bits']))
         if p[9] != str(f['count']):
             return 'tx_count %s, expected %d' % (p[9], f['count'])
         ids = ','.join(o_txid(t) for t in f['txs'])
@@ -721,6 +1204,7 @@ def same(c, io, mo):
     tk = c.req.split(' ')
     blind = bool(case_classes(c) & MODEL_BLIND)
     if tk[0] == 'tx':
+        mo, sl = mo.rsplit(' SL:', 1)
         main, spec = mo.rsplit(' SPEC:', 1)
         raw = unhx(tk[2])
         t = o_parse(raw)
@@ -733,10 +1217,18 @@ def same(c, io, mo):
             # layer's business: compare bytes and id only
             cut = lambda x: ' '.join(x.split(' ')[:2])
             s, l, main = cut(_norm(s)), cut(_norm(l)), cut(main)
-        ok_l = _norm(l) == main
-        ok_s = _norm(s) == main or (_norm(s) == 'ERR' and tk[1] != 'std')
         if c.kind == 'tx_trunc' and main == 'ERR':
             return True                       # short reads are outside the model
+        if tk[1] == 'shp' and sl in ('00', '01', '10', '11'):
+            # shaped-data stream: the model of the script layer (Model/TxStrict.v) says exactly when each mode refuses
+            want_s, want_l = ('ERR' if sl[0] == '1' else main), ('ERR' if sl[1] == '1' else main)
+            if (_norm(s) == 'ERR') != (want_s == 'ERR') or (_norm(l) == 'ERR') != (want_l == 'ERR'):
+                return False
+            if _norm(s) == want_s and _norm(l) == want_l:
+                return True
+            return blind and prop_check(c, io) is not None
+        ok_l = _norm(l) == main
+        ok_s = _norm(s) == main or (_norm(s) == 'ERR' and tk[1] != 'std')
         if ok_l and ok_s:
             return True
         return blind and prop_check(c, io) is not None
@@ -749,6 +1241,15 @@ def same(c, io, mo):
         return blind                          # the byte-level model does not predict what Input() re-assembles
     if tk[0] == 'target':
         return io.split(':')[0] == mo.split(' ')[0]
+    if tk[0] == 'bsess':
+        if o_parse_block(unhx(tk[1])) is None:
+            return True                       # truncated / malformed block bytes are outside the model
+        a, b = io.split(' | '), mo.split(' | ')
+        if 'X' in b:
+            # the model stops at a read past the last transaction (outside the model); the implementation raises there
+            i = b.index('X')
+            return a[:i] == b[:i] and len(a) > i and a[i].startswith('ERR')
+        return a == b
     if tk[0] == 'block':
         m, spec = mo.rsplit(' SPEC:', 1)
         f = o_parse_block(unhx(tk[1]))
@@ -766,14 +1267,71 @@ def _in_class(name):
     return lambda c, io, mo: name in case_classes(c)
 
 
+def _tx_sides(c, io):
+    """(strict answer, lenient answer) of a tx request, None otherwise"""
+    if not c.req.startswith('tx '):
+        return None
+    s, l, _ = split_tx_out(io)
+    return s, l
+
+
+def _rebuild(c, io, mo):
+    # re-assembly of scriptSig / witness from recognised signatures and keys changes raw() / txid; it never makes a
+    # parse FAIL: a refusal is not excused by this class
+    if 'script_layer_rebuild' not in case_classes(c):
+        return False
+    sides = _tx_sides(c, io)
+    if sides is None:
+        return True
+    s, l = sides
+    return not l.startswith('ERR') and not (s.startswith('ERR') and c.req.split(' ')[1] in ('std', 'shp'))
+
+
+def _strict_sig(c, io, mo):
+    # strict mode raises ScriptError on a signature-shaped item it cannot decode; strict=False parses the transaction
+    if 'strict_refuses_signature_shaped' not in case_classes(c):
+        return False
+    sides = _tx_sides(c, io)
+    if sides is None or sides[0] != 'ERR ScriptError':
+        return False
+    raw = unhx(c.req.split(' ')[2])
+    return check_parsed(sides[1], raw, o_parse(raw), 'lenient') is None
+
+
+def _ms_mismatch(c, io, mo):
+    # both modes raise ScriptError on an output script OP_m <keys> OP_n OP_CHECKMULTISIG with inconsistent counts
+    if 'multisig_count_mismatch' not in case_classes(c):
+        return False
+    sides = _tx_sides(c, io)
+    if sides is None:
+        return True                           # block readers parse with strict=False and fail the same way
+    return sides[1] == 'ERR ScriptError' and sides[0] == 'ERR ScriptError'
+
+
+def _target_class(c, io, mo):
+    # the documented deviation only: exponent below 3 gives a float, the sign bit is read as mantissa bit 23
+    if 'target_outside_domain' not in case_classes(c):
+        return False
+    if c.req.startswith('target '):
+        bits = int(c.req.split(' ')[1])
+        return io == lib_target_documented(bits)
+    if c.req.startswith('block '):
+        f = o_parse_block(unhx(c.req.split(' ')[1]))
+        p = io.split(' D:')[0].split(' ')
+        return f is not None and len(p) > 8 and p[8] == lib_target_documented(f['bits'], True)
+    return True
+
+
 KNOWN_CLASSES = {
     'single_zero_byte_item': _in_class('single_zero_byte_item'),
     'ascii_hex_bytes': _in_class('ascii_hex_bytes'),
     'scriptsig_and_witness': _in_class('scriptsig_and_witness'),
-    'script_layer_rebuild': _in_class('script_layer_rebuild'),
+    'script_layer_rebuild': _rebuild,
     'malformed_scriptsig': _in_class('malformed_scriptsig'),
     'segwit_flag_without_witness': _in_class('segwit_flag_without_witness'),
-    'target_outside_domain': _in_class('target_outside_domain'),
+    'target_outside_domain': _target_class,
+    'strict_refuses_signature_shaped': _strict_sig,
+    'multisig_count_mismatch': _ms_mismatch,
 }
 
 
